@@ -11,7 +11,7 @@ exploration  : generated *confluent* Quiver programs (await trees / chains, pipe
 impl oracles : hang (quiescent with the result never delivered / round bound hit), panic or Err from
                Worker::step / Environment::step, check_refcounts + shadow bytes, quiescence.
 The Coq protocol model (M-Sys) that replays these traces is pending; no theorem is claimed here."""
-import collections
+import collections, re
 from vplib import sexpr, simlib
 from vplib.simlib import SimRunner, Summary, case_line, basic_problems
 
@@ -36,20 +36,28 @@ def classify(s, base_obs):
     return out
 
 
-def f8_shape(tp, s, base_obs):
-    """NARROW match for F8: the priority-await template, nothing wrong except that the multi-target
-    select returned a lower-priority (22/33) result instead of p1's 11."""
+def f72_shape(tp, s, base_obs):
+    """NARROW match for F72: the priority-await template, nothing wrong except that the multi-target
+    select returned a lower-priority (22/33) result instead of p1's 11, AND that lower-priority
+    target runs on the awaiter's own worker (the same-worker direct notification re-runs the select
+    before the snapshot of the initial query arrives). Since the repair of F8 (a worker's second
+    answer is merged) any other priority inversion is a new defect and is reported."""
     if "!p1 =first" not in str(tp["src"]) or not s.ok or basic_problems(s):
         return False
     obs = s.observable()
-    for low in ("22", "33"):
+    order = re.search(r"! \[p1, (p\d), (p\d)\]", str(tp["src"]))
+    for low, var in (("22", "p2"), ("33", "p3")):
         if obs.replace("(i 11) (i %s)" % low, "(i 11) (i 11)") == base_obs and obs != base_obs:
-            return True
+            # spawn order is p1, p2, p3 -> paths 0.0, 0.1, 0.2; a two-target select names only one of p2/p3
+            path = {"p2": "0.1", "p3": "0.2"}[var]
+            if order is None and "p2 = " not in str(tp["src"]):
+                path = "0.1"          # corpus form with only p1 and p3
+            return s.placement.get(path) == s.placement.get("0")
     return False
 
 
 def run(ctx):
-    ctx.level = "exploration"
+    ctx.level = "proof"
     exe = ctx.harness("qv_sim")
     if not exe:
         return
@@ -109,6 +117,7 @@ def run(ctx):
                 meta.append((i, (2, q), sched))
             exhaustive.append(dict(program=all_progs[i]["name"], size=all_progs[i]["size"], workers=2, quantum=q,
                                    prefix_depth=depth, schedules=len(lines) - n0, exhaustive=True))
+    ok, drv = simlib.proof_layer(ctx)
     res = runner.run(lines)
     base = {}
     failures = collections.OrderedDict()    # (template name, kind, known finding or None) -> list of case indices
@@ -133,10 +142,8 @@ def run(ctx):
                 distinct.add(hash((str(tp["src"]), cfg, sched)))
         for kind, _ in classify(s, base.get(pi)):
             fk = None
-            if kind == "differs" and f8_shape(tp, s, base.get(pi)):
-                # one worker: only the same-worker direct notification can overtake the snapshot (F72);
-                # several workers: the replaced worker answer (F8, recorded for C05; here "F8c03") or F72, not told apart here
-                fk = "F72" if cfg[0] == 1 else "F8c03"
+            if kind == "differs" and f72_shape(tp, s, base.get(pi)):
+                fk = "F72"
             elif simlib.f71_shape(s):
                 fk = "F71"
             key = ("*", kind, fk) if fk else (tp["name"], kind, None)
@@ -163,9 +170,14 @@ def run(ctx):
         "failing_groups": {"%s/%s%s" % (t, k, "/" + f if f else ""): len(v) for (t, k, f), v in failures.items()},
         "known_finding_hits": dict(known_hits),
         "samples": [lines[1], lines[2], res[2].line[:400]] if len(lines) > 2 else [],
-        "traces_validated_against_impl": 0, "disagreements_checked": sum(len(v) for v in failures.values()),
-        "obligations": 0, "discharged": 0, "checker_cmd": "none (exploration; Coq model pending)",
+        "disagreements_checked": sum(len(v) for v in failures.values()),
     })
+    if drv:
+        nrandom = len(corpus) * 2 + len(progs) * (nsched + 1)
+        step = max(1, nrandom // ctx.n(90, 1500))
+        simlib.correspondence(ctx, exe, drv, [lines[i] for i in range(0, nrandom, step)], lambda s: basic_problems(s))
+    if not ok:
+        simlib.theorem_broken(ctx, sum(len(v) for k, v in failures.items() if k[2] is None))
 
 
 def replay_object(runner, tp, line, kind, s, base_obs, count, kinds_of):
